@@ -511,6 +511,7 @@ func (rn *runner) execute(region *core.RegionInfo, steps []operator.OpStep) (coq
 	sim := tikvsim.New(region)
 	cur := region
 	for _, s := range steps {
+		safeRaw := s.CheckSafety(cur) == nil
 		fb := s.IsFinish(cur)
 		safe, accepted := true, false
 		var msg *pdpb.RegionHeartbeatResponse
@@ -544,7 +545,7 @@ func (rn *runner) execute(region *core.RegionInfo, steps []operator.OpStep) (coq
 		}
 		te.Region = coqRegion(cur, sim.Rng)
 		js = append(js, te)
-		coq = append(coq, fmt.Sprintf("TObs %s %s %s %s %s %s %s", coqfmt.Bool(fb), coqfmt.Bool(safe), coqCmd(msg), coqfmt.Bool(accepted),
+		coq = append(coq, fmt.Sprintf("TObs %s %s %s %s %s %s %s %s", coqfmt.Bool(safeRaw), coqfmt.Bool(fb), coqfmt.Bool(safe), coqCmd(msg), coqfmt.Bool(accepted),
 			coqfmt.ZU(s.ConfVerChanged(cur)), coqfmt.Bool(s.IsFinish(cur)), coqRegion(cur, sim.Rng)))
 	}
 	return
@@ -994,6 +995,198 @@ func enumerate(n int, emit func(*caseIn)) {
 	}
 }
 
+// ---------- step probes: arbitrary steps on arbitrary regions (transcription of step.go, tikvsim vs apply_cmd) ----------
+
+type probeStep struct {
+	K     string      `json:"k"`
+	Store uint64      `json:"store,omitempty"`
+	ID    uint64      `json:"id,omitempty"`
+	From  uint64      `json:"from,omitempty"`
+	PL    [][2]uint64 `json:"pl,omitempty"`
+	DV    [][2]uint64 `json:"dv,omitempty"`
+}
+
+type probeIn struct {
+	Peers   []peerSpec  `json:"peers"`
+	Leader  uint64      `json:"leader"`
+	ConfVer uint64      `json:"conf_ver"`
+	Steps   []probeStep `json:"steps"`
+}
+
+func (p probeStep) step(region *core.RegionInfo) operator.OpStep {
+	pl := []operator.PromoteLearner{}
+	for _, x := range p.PL {
+		pl = append(pl, operator.PromoteLearner{ToStore: x[0], PeerID: x[1]})
+	}
+	dv := []operator.DemoteVoter{}
+	for _, x := range p.DV {
+		dv = append(dv, operator.DemoteVoter{ToStore: x[0], PeerID: x[1]})
+	}
+	switch p.K {
+	case "transfer":
+		return operator.TransferLeader{FromStore: p.From, ToStore: p.Store}
+	case "add-peer":
+		return operator.AddPeer{ToStore: p.Store, PeerID: p.ID}
+	case "add-learner":
+		return operator.AddLearner{ToStore: p.Store, PeerID: p.ID}
+	case "add-light-peer":
+		return operator.AddLightPeer{ToStore: p.Store, PeerID: p.ID}
+	case "add-light-learner":
+		return operator.AddLightLearner{ToStore: p.Store, PeerID: p.ID}
+	case "promote":
+		return operator.PromoteLearner{ToStore: p.Store, PeerID: p.ID}
+	case "demote":
+		return operator.DemoteFollower{ToStore: p.Store, PeerID: p.ID}
+	case "remove":
+		return operator.RemovePeer{FromStore: p.Store, PeerID: p.ID}
+	case "enter":
+		return operator.ChangePeerV2Enter{PromoteLearners: pl, DemoteVoters: dv}
+	case "leave":
+		return operator.ChangePeerV2Leave{PromoteLearners: pl, DemoteVoters: dv}
+	case "split":
+		return operator.SplitRegion{StartKey: region.GetStartKey(), EndKey: region.GetEndKey(), Policy: pdpb.CheckPolicy_USEKEY}
+	case "merge":
+		return operator.MergeRegion{FromRegion: region.GetMeta(), ToRegion: &metapb.Region{Id: 77}, IsPassive: false}
+	case "merge-passive":
+		return operator.MergeRegion{FromRegion: &metapb.Region{Id: 77}, ToRegion: region.GetMeta(), IsPassive: true}
+	}
+	panic("bad probe step " + p.K)
+}
+
+func genProbe(r *rng.R) *probeIn {
+	p := &probeIn{ConfVer: uint64(1 + r.Intn(9))}
+	joint := r.Pct(35)
+	sameIDs := r.Pct(20)
+	for {
+		p.Peers = nil
+		var cand []uint64
+		for s := uint64(1); s <= 6; s++ {
+			if !r.Pct(55) {
+				continue
+			}
+			role := []string{"voter", "learner"}[r.Pick(65, 35)]
+			if joint && role == "voter" {
+				role = []string{"voter", "incoming", "demoting"}[r.Pick(40, 30, 30)]
+			} else if joint && r.Pct(20) {
+				role = "learner"
+			}
+			id := 100 + s*7
+			if sameIDs {
+				id = s
+			}
+			p.Peers = append(p.Peers, peerSpec{Store: s, ID: id, Role: role})
+			if role != "learner" {
+				cand = append(cand, s)
+			}
+		}
+		if len(cand) > 0 {
+			p.Leader = cand[r.Intn(len(cand))]
+			break
+		}
+	}
+	peer := func() peerSpec { return p.Peers[r.Intn(len(p.Peers))] }
+	idOf := func(q peerSpec) uint64 {
+		switch r.Pick(80, 10, 10) {
+		case 1:
+			return 0
+		case 2:
+			return q.ID + 1
+		}
+		return q.ID
+	}
+	pairs := func(want func(string) bool) [][2]uint64 {
+		var out [][2]uint64
+		for _, q := range p.Peers {
+			if (want(q.Role) && r.Pct(75)) || r.Pct(6) {
+				out = append(out, [2]uint64{q.Store, idOf(q)})
+			}
+		}
+		return out
+	}
+	n := 1 + r.Intn(4)
+	for i := 0; i < n; i++ {
+		q := peer()
+		st := q.Store
+		if r.Pct(35) {
+			st = uint64(1 + r.Intn(7)) // maybe a store without peer
+		}
+		id := idOf(q)
+		if st != q.Store {
+			id = 200 + st
+		}
+		switch r.Pick(12, 7, 9, 5, 5, 10, 10, 14, 9, 9, 4, 3, 3) {
+		case 0:
+			p.Steps = append(p.Steps, probeStep{K: "transfer", From: p.Leader, Store: st})
+		case 1:
+			p.Steps = append(p.Steps, probeStep{K: "add-peer", Store: st, ID: id})
+		case 2:
+			p.Steps = append(p.Steps, probeStep{K: "add-learner", Store: st, ID: id})
+		case 3:
+			p.Steps = append(p.Steps, probeStep{K: "add-light-peer", Store: st, ID: id})
+		case 4:
+			p.Steps = append(p.Steps, probeStep{K: "add-light-learner", Store: st, ID: id})
+		case 5:
+			p.Steps = append(p.Steps, probeStep{K: "promote", Store: st, ID: id})
+		case 6:
+			p.Steps = append(p.Steps, probeStep{K: "demote", Store: st, ID: id})
+		case 7:
+			p.Steps = append(p.Steps, probeStep{K: "remove", Store: st, ID: id})
+		case 8:
+			if joint {
+				p.Steps = append(p.Steps, probeStep{K: "enter", PL: pairs(func(x string) bool { return x == "incoming" }), DV: pairs(func(x string) bool { return x == "demoting" })})
+			} else {
+				p.Steps = append(p.Steps, probeStep{K: "enter", PL: pairs(func(x string) bool { return x == "learner" }), DV: pairs(func(x string) bool { return x == "voter" && r.Pct(50) })})
+			}
+		case 9:
+			if joint {
+				p.Steps = append(p.Steps, probeStep{K: "leave", PL: pairs(func(x string) bool { return x == "incoming" }), DV: pairs(func(x string) bool { return x == "demoting" })})
+			} else {
+				p.Steps = append(p.Steps, probeStep{K: "leave", PL: pairs(func(x string) bool { return x == "voter" && r.Pct(40) }), DV: pairs(func(x string) bool { return x == "learner" })})
+			}
+		case 10:
+			p.Steps = append(p.Steps, probeStep{K: "split"})
+		case 11:
+			p.Steps = append(p.Steps, probeStep{K: "merge"})
+		case 12:
+			p.Steps = append(p.Steps, probeStep{K: "merge-passive"})
+		}
+	}
+	return p
+}
+
+type probeOut struct {
+	In    probeIn      `json:"probe"`
+	Trace []traceEntry `json:"trace"`
+	coq   string
+	kinds []string
+}
+
+func runProbe(rn *runner, p *probeIn) probeOut {
+	meta := &metapb.Region{Id: 1, StartKey: []byte("a"), EndKey: []byte("b"), RegionEpoch: &metapb.RegionEpoch{ConfVer: p.ConfVer, Version: 3}}
+	var leader *metapb.Peer
+	for _, q := range p.Peers {
+		mp := q.meta()
+		meta.Peers = append(meta.Peers, mp)
+		if q.Store == p.Leader {
+			leader = mp
+		}
+	}
+	region := core.NewRegionInfo(meta, leader)
+	out := probeOut{In: *p}
+	var steps []operator.OpStep
+	var ss []string
+	for _, s := range p.Steps {
+		st := s.step(region)
+		steps = append(steps, st)
+		ss = append(ss, coqStep(st))
+		out.kinds = append(out.kinds, stepName(st))
+	}
+	tr, js := rn.execute(region, steps)
+	out.Trace = js
+	out.coq = fmt.Sprintf("CProbe %s %s\n   %s", coqRegion(region, 0), coqfmt.List(ss), coqfmt.List(tr))
+	return out
+}
+
 func main() {
 	seed := flag.Uint64("seed", 1, "")
 	n := flag.Int("n", 4000, "number of random cases (5-6 stores; the same number again for 4 stores in the quick tier)")
@@ -1002,6 +1195,7 @@ func main() {
 	corpus := flag.String("corpus", "", "json file with a list of cases, run first")
 	replay := flag.String("replay", "", "json file with one case (or a list): run and print plan and trace")
 	enumMax := flag.Int("enum", 0, "exhaustive enumeration up to this many stores (default 3 quick, 4 thorough)")
+	probes := flag.Int("probes", 3000, "number of step probes (random steps on random regions)")
 	flag.Parse()
 	log.ReplaceGlobals(zap.NewNop(), nil)
 
@@ -1128,6 +1322,31 @@ func main() {
 				r := master.Fork(uint64(1000000 + k))
 				emit(genRandom(r, 4))
 			}
+		}
+		for k := 0; k < *probes; k++ {
+			po := runProbe(rn, genProbe(master.Fork(uint64(5000000+k))))
+			R.Count("gen:probe")
+			for i, kd := range po.kinds {
+				R.Count("probe-step:" + kd)
+				te := po.Trace[i]
+				switch {
+				case te.FinBefor:
+					R.Count("probe:already-finished")
+				case te.Safe != "":
+					R.Count("probe:unsafe")
+				case te.Applied == "ok":
+					R.Count("probe:applied")
+				case te.Cmd == "" || te.Cmd == "None":
+					R.Count("probe:nothing-sent")
+				default:
+					R.Count("probe:store-refused")
+				}
+			}
+			R.Case(po.coq, false)
+			if err := cf.Add(po.coq); err != nil {
+				panic(err)
+			}
+			all = append(all, caseOut{Steps: []string{"probe"}, Trace: po.Trace, In: caseIn{Gen: "probe", Via: "probe", Origin: po.In.Peers, Leader: po.In.Leader}})
 		}
 		R.Notes = append(R.Notes, fmt.Sprintf("driver generated and executed %d cases in %.1fs", len(all), time.Since(t0).Seconds()))
 	}
